@@ -6,6 +6,7 @@ import Driver.Ops.Mem
 import Driver.Ops.Cls
 import Driver.Ops.EncChar
 import Driver.Ops.Enc
+import Driver.Ops.SpecEnc
 /-!
 Model driver: reads operation lines `op args… => impl-result` on stdin,
 recomputes the right-hand side with the Lean model and prints
@@ -19,7 +20,7 @@ Each `Driver/Ops/*.lean` module contributes a handler
 namespace Driver
 
 def handlers : List (String → List String → Option (Option String)) :=
-  [Ops.label, Ops.dec, Ops.valid, Ops.mem, Ops.cls, Ops.encchar, Ops.enc]
+  [Ops.label, Ops.dec, Ops.valid, Ops.mem, Ops.cls, Ops.encchar, Ops.enc, Ops.specenc]
 
 /-- model result for one operation, or `none` if the line is not understood -/
 def runOp (op : String) (args : List String) : Option String :=
